@@ -91,12 +91,25 @@ func NewParser(srcPath, dstPath string) (*Parser, error) {
 	// (e.g. "example.com/lib/v2" declaring "package lib"); prefer the loaded name.
 	for _, spec := range fileSrc.Imports {
 		pkgPath := strings.ReplaceAll(spec.Path.Value, `"`, "")
-		if spec.Name != nil && (spec.Name.Name != "_" || imports[pkgPath] == "_") {
-			continue
-		}
-		if imp, ok := pkgs[0].Imports[pkgPath]; ok && imp.Name != "" {
+		if imp, ok := pkgs[0].Imports[pkgPath]; ok && imp.Name != "" && spec.Name == nil {
 			imports[pkgPath] = imp.Name
 		}
+	}
+	// A blank import stays reachable by its package name (see NewImportNames) unless
+	// another import already goes by that name.
+	for _, spec := range fileSrc.Imports {
+		pkgPath := strings.ReplaceAll(spec.Path.Value, `"`, "")
+		imp, ok := pkgs[0].Imports[pkgPath]
+		if !ok || imp.Name == "" || spec.Name == nil || spec.Name.Name != "_" || imports[pkgPath] == "_" {
+			continue
+		}
+		name := imp.Name
+		for p, n := range imports {
+			if p != pkgPath && n == imp.Name {
+				name = "_"
+			}
+		}
+		imports[pkgPath] = name
 	}
 	return &Parser{
 		srcPath: fileSet.Position(fileSrc.Pos()).Filename,
